@@ -74,6 +74,8 @@ def enc_cfg(cfg, ip6table):
     fp = [client_cert()[1]] if cfg["fp"] else []
     return [bool(cfg["has_mw"]), bool(cfg["has_upload"]), cfg["peer_ip"] if cfg["peer_ip"] is not None else "unknown", fp, hres, ip6table]
 
+SYNC_MSG = "the upload handler failed before returning an awaitable"
+
 class Escape(Exception):
     pass
 
@@ -104,6 +106,15 @@ async def run_schedule(cfg, events, settle=8):
             seen.append([req.hostname, req.port, req.path, req.parsed_url.query])
             i = new_gate(); acts.append(["up", i, req.raw_url, bytes(req.content)])
             return await finish(i)
+    class UPSync:
+        """an upload handler whose call is over before any awaitable exists: it raises, or hands back a response object instead
+        of an awaitable (cfg["up_sync"] = "raise" | "value").  The invocation is recorded like any other."""
+        def handle_upload(self, req):
+            seen.append([req.hostname, req.port, req.path, req.parsed_url.query])
+            i = new_gate(); acts.append(["up", i, req.raw_url, bytes(req.content)])
+            gates[i].set_result(("raise", SYNC_MSG))
+            if cfg["up_sync"] == "raise": raise Exception(SYNC_MSG)
+            return mk_resp((20, "text/gemini", None))
     async def async_handler():
         i = new_gate(); acts.append(["ht", i])
         return await finish(i)
@@ -115,7 +126,7 @@ async def run_schedule(cfg, events, settle=8):
         if h[0] == "raise": raise Exception(h[1])
         return async_handler()
     urllib_calls = []
-    p = GeminiServerProtocol(handler, MW() if cfg["has_mw"] else None, UP() if cfg["has_upload"] else None)
+    p = GeminiServerProtocol(handler, MW() if cfg["has_mw"] else None, (UPSync() if cfg.get("up_sync") else UP()) if cfg["has_upload"] else None)
     der = client_cert()[0] if cfg["fp"] else None
     peer = (cfg["peer_ip"], 4242) if cfg["peer_ip"] is not None else None
     t = FakeTransport(acts, peer, der)
